@@ -211,6 +211,15 @@ Definition show_result (wc: bool) (r: res pos (node pos * pstate pos)) : str :=
   | OutOfFuel => s2l "R"
   end.
 
+(* outcome of the whole-pipeline model on a text, coordinates erased, token counter dropped *)
+Definition outcome_str (text: str) : str :=
+  match run_parse text (s2l "f.c") with
+  | Ok (ast, _) => s2l "OK|" ++ show_ast (N.to_nat 1000) false ast
+  | Err l m => s2l "E|" ++ show_loc l ++ s2l ": " ++ m
+  | Crash k => s2l "C|" ++ crash_name k
+  | OutOfFuel => s2l "R"
+  end.
+
 Definition api_parse (req: list N) : str :=
   match req with
   | wc :: r =>
